@@ -11,6 +11,7 @@ pub enum Tok {
     S(Scalar),
     V(String),
     N(u128),
+    I(i128),
     X(Vec<u8>),
     L(usize),
 }
@@ -73,6 +74,7 @@ pub fn parse_toks(out: &str) -> Vec<Tok> {
                 "s:" => Tok::S(dl::parse_s(v).unwrap_or_else(|| panic!("bad scalar token {}", t))),
                 "v:" => Tok::V(v.to_string()),
                 "n:" => Tok::N(v.parse().unwrap()),
+                "i:" => Tok::I(v.parse().unwrap()),
                 "x:" => Tok::X(hex::decode(v).unwrap()),
                 "l:" => Tok::L(v.parse().unwrap()),
                 _ => panic!("bad token {}", t),
